@@ -168,7 +168,10 @@ class Processor(ABC):
             materialization.
         """
         if original.payload is not None:
-            return original, True
+            # Only a locked relation (a leaf or a materialization) is known to
+            # hold a payload that is appropriate for caching; one attached to a
+            # transfer may have been obtained with ``materialize_as=None``.
+            return original, original.is_locked
         result: Relation
         payload: Any = None
         match original:
